@@ -126,13 +126,14 @@ func mergeToWriter(segments []*Segment, drops []*roaring.Bitmap,
 	var storedIndexOffset uint64
 	var fieldDocs, fieldFreqs map[uint16]uint64
 	var dictLocs []uint64
+	// the stored section and the document number mapping are written even when no
+	// document survives, as for a segment built from an empty batch
+	storedIndexOffset, newDocNums, err = mergeStoredAndRemap(segments, drops,
+		fieldsMap, fieldsInv, fieldsSame, numDocs, cr, closeCh)
+	if err != nil {
+		return nil, nil, err
+	}
 	if numDocs > 0 {
-		storedIndexOffset, newDocNums, err = mergeStoredAndRemap(segments, drops,
-			fieldsMap, fieldsInv, fieldsSame, numDocs, cr, closeCh)
-		if err != nil {
-			return nil, nil, err
-		}
-
 		dictLocs, fieldDocs, fieldFreqs, docValueOffset, err = persistMergedRest(segments, drops,
 			fieldsInv, fieldsMap,
 			newDocNums, numDocs, chunkMode, cr, closeCh)
